@@ -241,14 +241,64 @@ theorem g7_AppendLosslessLayer (g : GParams) (p : LParams) : (g7 g p).AppendLoss
 theorem g8_AppendLosslessLayer (g : GParams) (p : LParams) : (g8 g p).AppendLosslessLayer = p.AppendLosslessLayer := by
   unfold g8; cases g.usePCRDOpt <;> simp only [] <;> (try split) <;> rfl
 
-theorem extract_rate (g : GParams) : (extractGeneric g).Rate > 0 := by
+theorem g8_TargetRatio (g : GParams) (p : LParams) : (g8 g p).TargetRatio = p.TargetRatio := by
+  unfold g8; cases g.usePCRDOpt <;> simp only [] <;> (try split) <;> rfl
+
+theorem g9_TargetRatio (g : GParams) (p : LParams) : (g9 g p).TargetRatio = p.TargetRatio := by
+  unfold g9; cases g.appendLosslessLayer <;> simp only [] <;> (try split) <;> rfl
+
+theorem g1_TargetRatio (g : GParams) (p : LParams) : (g1 g p).TargetRatio = p.TargetRatio := by
+  unfold g1; cases g.numLevels <;> simp only [] <;> (try split) <;> rfl
+theorem g2_TargetRatio (g : GParams) (p : LParams) : (g2 g p).TargetRatio = p.TargetRatio := by
+  unfold g2; cases g.allowMCT <;> simp only [] <;> (try split) <;> rfl
+theorem g3_TargetRatio (g : GParams) (p : LParams) : (g3 g p).TargetRatio = p.TargetRatio := by
+  unfold g3; cases g.rate <;> simp only [] <;> (try split) <;> rfl
+theorem g4_TargetRatio (g : GParams) (p : LParams) : (g4 g p).TargetRatio = p.TargetRatio := by
+  unfold g4; cases g.rateLevels <;> simp only [] <;> (try split) <;> rfl
+theorem g5_TargetRatio (g : GParams) (p : LParams) : (g5 g p).TargetRatio = p.TargetRatio := by
+  unfold g5; cases g.progressionOrder <;> simp only [] <;> (try split) <;> rfl
+theorem g6_TargetRatio (g : GParams) (p : LParams) : (g6 g p).TargetRatio = p.TargetRatio := by
+  unfold g6; cases g.numLayers <;> simp only [] <;> (try split) <;> rfl
+
+/-- the extracted Rate: the generic "rate" when it is an int ≥ 0 (0 included: it switches the default ladder off),
+    the default 20 otherwise -/
+theorem extract_rate_eq (g : GParams) :
+    (extractGeneric g).Rate = (match g.rate with | some r => if r ≥ 0 then r else 20 | none => 20) := by
   unfold extractGeneric
   rw [g9_Rate, g8_Rate, g7_Rate, g6_Rate, g5_Rate, g4_Rate]
   have h0 : (g2 g (g1 g defaultLParams)).Rate = 20 := by rw [g2_Rate, g1_Rate]; rfl
   unfold g3
   cases g.rate with
-  | none => simp only []; omega
-  | some r => simp only []; split <;> simp_all <;> omega
+  | none => simp only []; exact h0
+  | some r => simp only []; split <;> simp_all
+
+theorem extract_rate (g : GParams) : (extractGeneric g).Rate ≥ 0 := by
+  rw [extract_rate_eq]
+  cases g.rate with
+  | none => simp
+  | some r => simp only []; split <;> omega
+
+theorem extract_rate_zero (g : GParams) : (extractGeneric g).Rate = 0 ↔ g.rate = some 0 := by
+  rw [extract_rate_eq]
+  cases g.rate with
+  | none => simp
+  | some r =>
+    simp only [Option.some.injEq]
+    split
+    · exact Iff.rfl
+    · constructor <;> intro h <;> omega
+
+/-- the extracted TargetRatio: the generic "targetRatio" when present, the default 0 otherwise -/
+theorem extract_target (g : GParams) :
+    (extractGeneric g).TargetRatio = (match g.targetRatio with | some t => t | none => Frac.zero) := by
+  unfold extractGeneric
+  rw [g9_TargetRatio, g8_TargetRatio]
+  have h0 : (g6 g (g5 g (g4 g (g3 g (g2 g (g1 g defaultLParams)))))).TargetRatio = Frac.zero := by
+    rw [g6_TargetRatio, g5_TargetRatio, g4_TargetRatio, g3_TargetRatio, g2_TargetRatio, g1_TargetRatio]; rfl
+  unfold g7
+  cases g.targetRatio with
+  | none => simp only []; exact h0
+  | some t => rfl
 
 theorem extract_prog (g : GParams) : 0 ≤ (extractGeneric g).ProgressionOrder := by
   unfold extractGeneric
